@@ -422,7 +422,9 @@ class Interp:
             if e.kind in ("list",):
                 return FrozenList([self.freeze(x, st) for x in e.items])
             if e.kind == "dict":
-                return FrozenDict({k: self.freeze(x, st) for k, x in e.items.items()})
+                # keys that are objects (e.g. voluptuous-style marker objects) are frozen / thawed like values: a Ref
+                # into the constant's private store means nothing in the state of a path
+                return FrozenDict({(self.freeze(k, st) if isinstance(k, Ref) else k): self.freeze(x, st) for k, x in e.items.items()})
             if e.kind == "set":
                 return frozenset(e.items)
             if e.kind == "nd":
@@ -438,13 +440,17 @@ class Interp:
         if isinstance(v, FrozenList):
             return st.alloc(ListE([self.thaw(x, st) for x in v.items]))
         if isinstance(v, FrozenDict):
-            return st.alloc(DictE({k: self.thaw(x, st) for k, x in v.items.items()}))
+            return st.alloc(DictE({(self.thaw(k, st) if isinstance(k, (FrozenObj, FrozenList, FrozenDict, FrozenNd)) else k): self.thaw(x, st)
+                                   for k, x in v.items.items()}))
         if isinstance(v, FrozenNd):
             return st.alloc(NdE(v.shape, [self.thaw(x, st) for x in v.data]))
         if isinstance(v, frozenset):
             return st.alloc(SetE(list(v)))
         if isinstance(v, FrozenObj):
             return st.alloc(ObjE(v.cls, {k: self.thaw(x, st) for k, x in v.attrs.items()}))
+        if type(v) is tuple and any(isinstance(x, (FrozenObj, FrozenList, FrozenDict, FrozenNd, frozenset, tuple)) for x in v):
+            # freeze() descends into tuples, so thaw must as well (e.g. the validators tuple of a schema object)
+            return tuple(self.thaw(x, st) for x in v)
         return v
 
     def thaw_global(self, v, st):
@@ -1513,6 +1519,9 @@ class Interp:
         if self.is_subclass(cls, BuiltinClass("list", list)):
             # class deriving from the builtin list (e.g. BlockCollection): list payload + the class's own methods
             st.get(obj).attrs["__list__"] = st.alloc(ListE([]))
+        if self.is_subclass(cls, BuiltinClass("dict", dict)):
+            # class deriving from the builtin dict (e.g. XSSettings): dict payload + the class's own methods
+            st.get(obj).attrs["__dictdata__"] = st.alloc(DictE({}))
         dcf = self.dataclass_fields(cls)
         if dcf is not None:
             yield from self.instantiate_dataclass(cls, dcf, obj, list(args), kwargs, st)
@@ -1522,6 +1531,15 @@ class Interp:
             if args:
                 st.get(st.get(obj).attrs["__list__"]).items.extend(self.iterate(args[0], st))
             yield st, obj
+            return
+        if init is None and "__dictdata__" in st.get(obj).attrs:
+            # dict.__init__(self, *args, **kwargs) of a dict subclass without its own __init__
+            for st1, d in self.models.call_builtin_class(self, st, BuiltinClass("dict", dict), list(args), dict(kwargs)):
+                if isinstance(d, Exc):
+                    yield st1, d
+                else:
+                    st1.get(st1.get(obj).attrs["__dictdata__"]).items.update(st1.get(d).items)
+                    yield st1, obj
             return
         if init is None:
             if args or kwargs:
@@ -1688,6 +1706,8 @@ class Interp:
                     m2, _ = self.class_lookup(e.cls, "__len__")
                     if m2 is None and "__list__" in e.attrs:
                         return len(st.get(e.attrs["__list__"]).items) > 0
+                    if m2 is None and "__dictdata__" in e.attrs:
+                        return len(st.get(e.attrs["__dictdata__"]).items) > 0
                     if m2 is None:
                         return True
                     outs = list(self.call(m2, [v], {}, st))
